@@ -512,6 +512,8 @@ def main(chk):
                        "mode, failing and unfinished input) and the script runner on corpus programs and failing programs; "
                        "plus a seeded stream of malformed sources (token soup, truncated / mutated corpus programs, raw bytes, deep nesting) and stdin "
                        "contents. A case is non-trivial when it ends in a value, a Pangaea error or a syntax error (not discarded).")
+    chk.cov["rule"] += (" Keyword-argument cases also use nested receivers in which a key is found on some paths only. The allocation-size proviso is granted only to "
+                        "cases that ask for something huge (a literal of 7+ digits, `**`, `<<`); the same runtime message from a negative count is a crash.")
     if kinds.get("norun"):
         problems.append("%d cases could not be run (worker made no progress)" % kinds["norun"])
     if kinds.get("badcase", 0) > len(reqs) // 20:
